@@ -20,12 +20,19 @@ of the input space: the implementation logs the exception and continues, so the 
 clause above is judged as usual — in particular for the OTHER callbacks that share a datagram with a raising one
 (sessions with bursts of sends per frame, and an enumeration of two/three callbacks in one datagram x raise mode x
 retry modes x acked / timed-out datagram x keep-alive interval below / above the message time-out, both roles).
-Callbacks that call send() themselves (follow-up messages sent from inside a callback): implementation-only sessions."""
+Callbacks that call send() themselves (follow-up messages sent from inside a callback): implementation-only sessions.
+OVERTAKEN messages (overtaken_session): sends with callbacks — guaranteed (both APIs) and unretried — whose every copy is
+lost, or held back, while 200..600 NEWER messages of the same sender are accepted by the peer (the peer's 256-message
+receive window moves past them); then the loss stops / the held-back datagram arrives (inside and outside the sender's
+message time-out).  Same oracle: whatever the window did with the late copy, True means the peer application HAS the
+payload at that moment, a guaranteed send ends with exactly one True, an unretried one with exactly one call."""
 from harness import lib, netsim, connsim as S
 
 RULE = ("netsim sessions: latency in {0, 1/4, 1/2, 3/4} of the resend interval .. several intervals, loss/dup/reorder grid, "
         "sizes around the single-datagram and fragment boundaries, all retry modes; non-trivial = session in which "
-        ">= 1 callback fired True, >= 1 fired False and >= 1 datagram carrying a message with a callback was lost")
+        ">= 1 callback fired True, >= 1 fired False and >= 1 datagram carrying a message with a callback was lost; "
+        "overtaken sessions: 1-3 guaranteed / unretried sends with callbacks whose every copy is lost or held back while 200..600 newer "
+        "messages of the same sender are accepted (5..30 per frame: faster and slower than the message time-out), then healed / delivered late")
 ASSUMPTIONS = ["AES-GCM of the `cryptography` package (forgeries are rejected) — symbolic in the model",
                "clock values are multiples of 1/1024 s"]
 TRUSTED = ["harness/connsim.py + netsim.py (virtual clock, translation between datagram bytes and symbolic datagrams)"]
@@ -392,6 +399,98 @@ def nested_api_sessions(run, rng, n, steps):
             run.nt((label, len(depth), stats["true"], stats["false"]))
 
 
+def overtaken_session(run, rng, label, newer, mtu, per_step):
+    """1-3 sends with callbacks (guaranteed through send / send_guaranteed, unretried) queued together with ordinary traffic;
+    every datagram that carries a copy of one of them is lost (guaranteed) or held back (unretried) while `newer` newer
+    unretried messages of the same sender get through, per_step of them per frame (so the overtaking takes less or more
+    than the 1 s message time-out); then the loss stops and the held-back datagrams arrive.  Both directions carry
+    background traffic, so acknowledgements flow all the time."""
+    cfg = {"loss": 0, "dup": 0, "reorder": 0, "tick": 525, "delay": 0, "healed_delay": 0,
+           "scenario": "overtaken by %d newer messages (%d per frame)" % (newer, per_step)}
+    net = netsim.Net(run, rng, cfg, mtu=mtu)
+    viol = []
+    try:
+        who = rng.choice(["client", "server"])
+        peer = net.other(who)
+        conn = net.ep(who).impl.conn
+        for _ in range(3):
+            net.send(who, 9, 0, with_cb=False)
+            net.send(peer, 9, 0, with_cb=False)
+            net.step()
+        targets = {}                 # message seq -> (mid, retry)
+        for _ in range(rng.choice([1, 1, 2, 3])):
+            retry = rng.choice([-1, -1, 0])
+            m0 = int(conn.seq_message)
+            mid = net.send(who, rng.choice([9, 12, 60, 300]), retry, with_cb=True, api=(retry == -1 and rng.random() < 0.5))
+            if int(conn.seq_message) != m0 + 1:
+                raise RuntimeError("overtaken session: target message is not a single message")
+            targets[m0 + 1] = (mid, retry)
+        held = []                    # indices of the datagrams that carried an UNRETRIED target (they arrive late)
+
+        def carries(w, rec):
+            if w != who:
+                return False
+            msgs = S.decode_msgs_py(rec["hdr"][4], rec["hdr"][6], bytes(rec["payload"])) or []
+            hit = [sq for (sq, ty, p) in msgs if sq in targets]
+            if hit and any(targets[sq][1] == 0 for sq in hit):
+                em = net.emitted[w]
+                held.append(next(i for i in range(len(em) - 1, -1, -1) if em[i] is rec))
+            return bool(hit)
+        net.drop_filter = carries
+        before = len(net.delivered[peer])
+        frames = 0
+        # (the newer messages that share a datagram with a copy of a target are lost with it: count what is ACCEPTED)
+        while len(net.delivered[peer]) - before < newer and frames < 600:
+            for _ in range(per_step):
+                net.send(who, 9, 0, with_cb=False)
+            net.send(peer, 9, 0, with_cb=False)
+            net.step()
+            frames += 1
+        got_newer = len(net.delivered[peer]) - before
+        if got_newer < newer:
+            raise RuntimeError("overtaken session: only %d of %d newer messages got through: harness not exercising the surface" % (got_newer, newer))
+        early = [c for c in net.callbacks[who] if c[2] and c[1] in [m for m, _ in targets.values()]]
+        net.drop_filter = None
+        for idx in held:             # the held-back datagrams arrive now (late, reordered), together
+            net.replay(peer, idx)
+        net.healed = True
+        for _ in range(int(3 * T // cfg["tick"]) + 30):
+            net.send(peer, 9, 0, with_cb=False)
+            net.step()
+        drain(net)
+        diffs = net.check_models()
+        stats = judge(net, label, cfg, mtu, viol)
+        for v in viol:
+            v[1]["newer_messages_accepted_meanwhile"] = got_newer
+            v[1]["overtaking_took_ticks"] = frames * cfg["tick"]
+    finally:
+        net.close()
+    for what, case in viol[:3]:
+        run.oracle_violation(what, case, "callbacks")
+    return net, diffs, cfg, stats, got_newer
+
+
+def overtaken_sessions(run):
+    rng = run.rng
+    cases, impl, mod = [], [], []
+    plan = [(257, 20), (258, 30), (300, 30), (600, 10), (270, 5), (200, 20), (256, 25), (400, 30)]
+    if run.thorough():
+        plan += [(rng.randrange(257, 601), rng.choice([5, 10, 20, 30])) for _ in range(30)]
+    for i, (newer, per_step) in enumerate(plan):
+        label = "o%d" % i
+        net, diffs, cfg, stats, got = overtaken_session(run, rng, label, newer, rng.choice([1500, 512]), per_step)
+        cases.append({"session": label, "cfg": cfg, "first_difference": diffs[:1]})
+        impl.append("agree")
+        mod.append("agree" if not diffs else "differ")
+        run.count("overtaken_sessions")
+        run.count("callbacks_true", stats["true"])
+        run.count("callbacks_false", stats["false"])
+        run.evaluations += len(net.emitted["client"]) + len(net.emitted["server"])
+        if got > 256 and stats["true"]:
+            run.nt((label, newer, per_step, stats["true"], stats["false"]))
+    run.compare("conn_run", cases, impl, mod)
+
+
 def net_due_callbacks_possible(net, who):
     return True
 
@@ -444,6 +543,7 @@ def run(run):
                 run.nt((label, stats["true"], stats["false"]))
         run.compare("conn_run", cases, impl, mod)
         nested_api_sessions(run, rng, 30 if th else 6, 100 if th else 50)
+        overtaken_sessions(run)
     finally:
         logging.disable(logging.NOTSET)
     stale_ack_after_wrap(run)
